@@ -55,7 +55,8 @@ Definition d_c11 (op : string) (a : val) : option val :=
           let '(res, after) := convert i o pres wr nat_ (map (num_decode i) vals) in
           Some (VL [vZs (map (num_encode o) res); vZs (map (num_encode i) after);
                     vbool (aliased i o pres wr nat_);
-                    VT (dtype_name (promote i o)); vbool (round_flag i o); vbool (clip_flag i o)])
+                    VT (dtype_name (work_dtype i o)); vbool (round_flag i o); vbool (clip_flag i o);
+                    vbool (saturate_top i o)])
       | _, _, _, _, _, _ => Some bad end
   (* with the dtype assertion: chunk dtype, then as "convert" *)
   | "convert_chk", VL [cd; i; o; pres; wr; nat_; vals] =>
@@ -64,13 +65,12 @@ Definition d_c11 (op : string) (a : val) : option val :=
           Some (v_outcome (fun ra => VL [vZs (map (num_encode o) (fst ra)); vZs (map (num_encode cd) (snd ra))])
                   (convert_checked cd i o pres wr nat_ (map (num_decode cd) vals)))
       | _, _, _, _, _, _, _ => Some bad end
-  (* guards of the findings, per raw input value: (uint64_top, int64_via_float, float32_overflow) *)
+  (* guard of the remaining finding, per raw input value: (float32_overflow) *)
   | "guards", VL [i; o; vals] =>
       match getD i, getD o, getZs vals with
       | Some i, Some o, Some vals =>
           Some (VL (map (fun z => let v := num_decode i z in
-                                  VL [vbool (uint64_top_guard i o v); vbool (int64_via_float_guard i o v);
-                                      vbool (float32_overflow_guard i o v)]) vals))
+                                  VL [vbool (float32_overflow_guard i o v)]) vals))
       | _, _, _ => Some bad end
   | "avg_guard", VL [dt; data] =>
       match getD dt, getZs data with
